@@ -168,3 +168,36 @@ Definition ok_e (x : ecase) : bool :=
   let b := forallb (fun evs => worker_drains (ec_cfg x) (with_timer_before_responses evs)) (ec_workers x) in
   if Bool.eqb a b then Bool.eqb (ec_flushed x) a else true.
 Definition mismatches_e := mismatches ok_e.
+
+(* ---------- (e) local trace validation of the broker worker ---------- *)
+(* The hook points of brokerProducer.run log, per worker goroutine, every loop event and the worker's own state
+   (bufferCount, bufferBytes, bp.timer != nil, bp.timerFired; with the bp.iter point also whether `output` is set).
+   The trace is replayed through [step]: every event must be enabled in the model state, and every logged state must
+   equal the model state at that point. *)
+Inductive titem :=
+| TEv (e : event)
+| TObs (count bytes : Z) (armed fired : bool)   (* state at a hook point = state after the previous step *)
+| TOut (out : bool)                             (* the loop's `output` after the iteration (bp.iter point) *)
+| TPending (p : bool).                          (* the worker sits in waitForSpace *)
+Record tcase := { tc_cfg : cfg; tc_items : list titem }.
+
+Fixpoint replay (c : cfg) (s : bstate) (items : list titem) : bool :=
+  match items with
+  | [] => true
+  | TEv e :: r => enabled s e && replay c (fst (step c s e)) r
+  | TObs n b a f :: r =>
+    Z.eqb (s_count (b_buf s)) n && Z.eqb (s_bytes (b_buf s)) b && Bool.eqb (b_armed s) a && Bool.eqb (b_fired s) f &&
+    replay c s r
+  | TOut o :: r => Bool.eqb (b_out s) o && replay c s r
+  | TPending p :: r => Bool.eqb (match b_pending s with Some _ => true | None => false end) p && replay c s r
+  end.
+Definition ok_t (x : tcase) : bool := replay (tc_cfg x) binit (tc_items x).
+Definition mismatches_t := mismatches ok_t.
+
+(* index of the first item at which the replay fails (for the evidence; not part of the verdict) *)
+Fixpoint replay_fail_at (c : cfg) (s : bstate) (items : list titem) (i : nat) : option nat :=
+  match items with
+  | [] => None
+  | TEv e :: r => if enabled s e then replay_fail_at c (fst (step c s e)) r (S i) else Some i
+  | it :: r => if replay c s [it] then replay_fail_at c s r (S i) else Some i
+  end.
